@@ -148,6 +148,24 @@ def run(ctx):
                     if outer in h.reach([d]):
                         okd = h.uncrossed_path([cc[0].block], [d], blocks=rel) is None
                 r3.check(okd, "release-before-guard-drop", "on the release path release() precedes the drop of the pooled connection", "the pooled connection is dropped (returned to the pool) before release() on the path back to the idle loop")
+                # ... and the guard is not given away earlier: a call that takes it by value (`drop(reference)`) ends the checkout right there
+                moved = []
+                for c_ in h.calls():
+                    if h.blocks[c_.block]["cleanup"]:
+                        continue
+                    for a_ in c_.args:
+                        pl_ = op_place(a_)
+                        if pl_ is None or a_.get("c") != "move" or pl_["p"]:
+                            continue
+                        vis_ = set()
+                        origins(h, a_, visited=vis_)
+                        # by value: the operand (a temporary the guard was moved into) has the guard's own type, not a reference to it
+                        if guard[0] in vis_ and h.locals[pl_["l"]]["ty"] == h.locals[guard[0]]["ty"]:
+                            moved.append(c_)
+                early = [c_ for c_ in moved if h.uncrossed_path([cc[0].block], [c_.block], blocks=rel) is not None]
+                r3.check(not early, "release-before-guard-moves", "the pooled connection is not handed to anything (%d by-value use(s)) before release()" % len(moved),
+                         "the pooled connection is given away (%s) before release(): it is back in the pool - or with the next client - while this client's key still names it; a CancelRequest with that key cancels "
+                         "the other client's statement" % [c_.name.split("::")[-1] for c_ in early], early[0].where() if early else "")
             # ... and on the other exits that give a *clean* connection back: where checkin_cleanup completed and handle then returns, the pooled connection is
             # handed on as soon as handle() has returned - the entry must be gone by then, not when the Client object is destroyed some time later (after
             # client_entrypoint has reported the departure to a possibly busy accept loop). Exits that leave the connection un-cleaned are bb8's to discard (C02's gate).
